@@ -106,6 +106,17 @@ structure TopicFilter where
   sharedFilterSep : Nat
   deriving DecidableEq, Repr, Inhabited
 
+/-- Lexicographic comparison of byte strings = `str::cmp` / `String::cmp` in Rust (which compare the
+UTF-8 bytes). -/
+def lexCmp : Bytes → Bytes → Ordering
+  | [], [] => .eq
+  | [], _ :: _ => .lt
+  | _ :: _, [] => .gt
+  | a :: as, b :: bs => if a < b then .lt else if b < a then .gt else lexCmp as bs
+
+/-- `impl Ord for TopicFilter` (= `PartialOrd`, and `PartialEq` is `cmp = eq`): the text only. -/
+def TopicFilter.cmp (a b : TopicFilter) : Ordering := lexCmp a.text b.text
+
 /-- `&inner[a..b]` on a `String`: panics unless `a ≤ b ≤ len` and both are char boundaries. -/
 def strSlice (text : Bytes) (a b : Nat) : Except String Bytes :=
   if a ≤ b ∧ b ≤ text.length then
